@@ -355,6 +355,15 @@ func (d *deepView) resolve(v ssa.Value, fr *frame) dval {
 		case *ssa.ChangeType:
 			// keep named-type conversions transparent only for identity of slices/strings
 			return dval{v, fr}
+		case *ssa.Field:
+			// field of a struct value (a by-value receiver/parameter copy of a locally built struct)
+			if d.throughFields && depth < 30 {
+				if fv, ok := d.structField(x.X, fr, x.Field, nil, 0); ok && !(fv.v == v && fv.fr == fr) {
+					v, fr = fv.v, fv.fr
+					continue
+				}
+			}
+			return dval{v, fr}
 		case *ssa.Extract:
 			call, ok := x.Tuple.(*ssa.Call)
 			if !ok {
